@@ -220,3 +220,15 @@ _R11["C16"] = (_R11["C16"][0] + ", discarded file written without criterion (SD)
 for _k, (_t, _l) in _R11.items():
     _a, _b, _c = CLAIMED[_k]
     CLAIMED[_k] = (_a + _t, _b + _l, _c)
+
+_R12 = {
+ "C02": ("; the clamped score is the one the offset is added to (QS clause)", ""),
+ "C03": ("; a batch taken for a look is put back on every path (PK-3)", " Also decides that the first batch of obicsv --auto is not dropped when it names no column."),
+ "C04": ("; writing goroutines close the destination before UnregisterPipe()/Done() (WD-6)", ""),
+ "C05": ("; PK-3", ""),
+ "C10": ("; initial states of the indel automaton closed under its deletion term (MI, clang)", " Also decides the shape of the initial condition of ManberIndel (level e+1 starts from (level e >> 1) | start bit), not the matcher."),
+ "C18": ("; WD-6", " Also decides that a failed close of the JSON/CSV destination is known before main is released."),
+}
+for _k, (_t, _l) in _R12.items():
+    _a, _b, _c = CLAIMED[_k]
+    CLAIMED[_k] = (_a + _t, _b + _l, _c)
